@@ -7,8 +7,11 @@ import (
 	"context"
 	"encoding/json"
 	"fmt"
+	"io"
 	"math/rand"
+	"runtime"
 	"strings"
+	"sync"
 	"sync/atomic"
 	"testing"
 	"time"
@@ -16,6 +19,7 @@ import (
 	"tunnox-core/internal/cloud/configs"
 	"tunnox-core/internal/cloud/models"
 	"tunnox-core/internal/packet"
+	"tunnox-core/internal/stream"
 	vk "tunnox-core/internal/verifkit"
 )
 
@@ -190,7 +194,7 @@ func TestVerifC02Lifecycle(t *testing.T) {
 	vk.Quiet()
 	run := vk.Start(t, "C02", "lifecycle")
 	defer run.Finish()
-	run.Rule("mini-server, one node; per case a fresh port mapping (bandwidth limit {0, 8000, 64KiB/s, 1MiB/s} in its config) between two registered clients, source and target attach through real TunnelOpen packets on authenticated tunnel connections, 1B..300KB per direction simultaneously in seeded chunkings, then the source or target transport closes (after the complete exchange, or early); last case: limit 8000 with one 20000-byte write; distinct = (limit class, closer, early, size buckets)")
+	run.Rule("mini-server, one node; per case a fresh port mapping (bandwidth limit {0, 8000, 64KiB/s, 1MiB/s} in its config) between two registered clients, source and target attach through real TunnelOpen packets on authenticated tunnel connections, 1B..300KB per direction simultaneously in seeded chunkings, then the source or target transport closes (after the complete exchange, or early); last case: limit 8000 with one 20000-byte write; then prewrite cases: the source has already written 1..8000 bytes when the target's TunnelOpen arrives and the server's write of the TunnelOpenAck is held back briefly, the target's raw byte stream must be one TunnelOpenAck packet followed by exactly the source's stream; distinct = (limit class, closer, early, size buckets)")
 	snap := vk.SnapshotGoroutines()
 	node := newMiniNode(t, miniOpts{NodeID: "node-a"})
 	defer node.Close()
@@ -435,6 +439,10 @@ func TestVerifC02Lifecycle(t *testing.T) {
 		run.Distinct(fmt.Sprintf("limit=%s|closer=%s|early=%v|%d/%d", lc, c.Closer, c.Early, c.S2T/32768, c.T2S/32768))
 	}
 
+	if !stop && run.Violations() < 10 {
+		undecided += c02lPrewrite(t, run, node, src, tgt, run.Rand("prewrite"), run.Pick(40, 300))
+	}
+
 	if c02lAwaitLifecycleEnd() {
 		leaked := snap.Leaked([]string{"session/tunnel.(*Bridge).CopyWithControl", "session/tunnel.(*Bridge).Start"}, nil, 2*time.Second)
 		if len(leaked) > 0 {
@@ -449,8 +457,206 @@ func TestVerifC02Lifecycle(t *testing.T) {
 	run.Floor("closure_observed_by_peer", int64(n*3/4))
 	run.Floor("complete_transfers", int64(n/3))
 	run.Floor("bridge_registered", int64(n*3/4))
+	run.Floor("prewrite_ack_then_exact_stream", int64(run.Pick(30, 220)))
 	run.Floor("cases_limit_none", 3)
 	run.Floor("cases_limit_burst<32K", 3)
 	run.Floor("cases_limit_64K", 3)
 	run.Floor("cases_limit_1M", 3)
+}
+
+
+// ---------------------------------------------------------------------------
+// "prewrite": bytes queued by the source before the target attaches
+// ---------------------------------------------------------------------------
+
+// c02lSlowAckConn is the server end of the target's transport. The write that carries
+// the TunnelOpenAck (recognised by its call stack) is held back for a short bounded
+// moment, or until some other goroutine has written to this transport: if the server
+// lets tunnel payload flow to this connection before it has written the ack, the
+// payload overtakes it. The delay only perturbs the schedule; the verdict is the byte
+// order the target end observes.
+type c02lSlowAckConn struct {
+	*vk.BufConn
+	mu          sync.Mutex
+	armed       atomic.Bool
+	ackDelayed  atomic.Bool
+	otherWrites atomic.Int64
+	overtaken   atomic.Bool
+}
+
+func (c *c02lSlowAckConn) Write(p []byte) (int, error) {
+	if c.armed.Load() {
+		buf := make([]byte, 8192)
+		st := string(buf[:runtime.Stack(buf, false)])
+		if strings.Contains(st, "sendTunnelOpenResponse") {
+			if !c.ackDelayed.Swap(true) {
+				for i := 0; i < 40 && c.otherWrites.Load() == 0; i++ {
+					time.Sleep(500 * time.Microsecond)
+				}
+				if c.otherWrites.Load() > 0 {
+					c.overtaken.Store(true)
+				}
+			}
+		} else if !strings.Contains(st, "HandlePacket") {
+			c.otherWrites.Add(1)
+		}
+	}
+	return c.BufConn.Write(p)
+}
+
+func c02lConnectSlowAck(n *miniNode) (*miniClient, *c02lSlowAckConn, error) {
+	k := miniAddrSeq.Add(1)
+	remote := fmt.Sprintf("10.%d.%d.%d:40000", (k>>16)&255, (k>>8)&255, k&255)
+	sc, hc := vk.BufPipe(remote, "127.0.0.1:7000")
+	w := &c02lSlowAckConn{BufConn: sc}
+	stc, err := n.SM.AcceptConnection(w, w)
+	if err != nil {
+		sc.Close()
+		hc.Close()
+		return nil, nil, err
+	}
+	c := &miniClient{n: n, hc: hc, sc: sc, ConnID: stc.ID}
+	c.sp = stream.NewStreamProcessor(hc, hc, n.ctx)
+	n.mu.Lock()
+	n.clients = append(n.clients, c)
+	n.mu.Unlock()
+	return c, w, nil
+}
+
+func c02lPrewrite(t *testing.T, run *vk.Run, node *miniNode, src, tgt *miniClient, r *rand.Rand, n int) (undecided int) {
+	for i := 0; i < n; i++ {
+		if run.Violations() >= 10 {
+			return
+		}
+		if !c02lAwaitLifecycleEnd() {
+			run.Count("watchdog", 1)
+			return undecided + 1
+		}
+		pre := []int{1, 17, 1000, 4096, 8000}[r.Intn(5)]
+		post := []int{0, 1, 5000, 40000}[r.Intn(4)]
+		seed := r.Uint64()
+		cs := map[string]any{"id": i, "bytes_before_target_attach": pre, "bytes_after": post, "pattern_seed": seed}
+		run.Case("lifecycle-prewrite", cs)
+		tid := fmt.Sprintf("c02-pre-%d-%d", i, seed)
+		mapping, err := node.CC.CreatePortMapping(&models.PortMapping{
+			ListenClientID: src.ClientID, TargetClientID: tgt.ClientID, Protocol: models.ProtocolTCP,
+			SourcePort: 18080, TargetHost: "10.1.2.3", TargetPort: 3306, SecretKey: "mk-" + tid, Status: models.MappingStatusActive,
+		})
+		if err != nil || mapping == nil {
+			t.Fatalf("c02: mapping setup failed: %v", err)
+		}
+		sc := node.MustConnect("")
+		if ok, err := sc.Login(src.ClientID, src.Secret, "tunnel"); !ok {
+			t.Fatalf("c02: source tunnel login failed: %v", err)
+		}
+		if ack, err := c02lOpen(sc, mapping.ID, tid, mapping.SecretKey); ack == nil || !ack.Success {
+			t.Fatalf("c02: source TunnelOpen failed: ack=%+v err=%v", ack, err)
+		}
+		data := vk.Pattern(seed, 0, pre+post)
+		// the source writes before the target's TunnelOpen arrives
+		if _, err := sc.hc.Write(data[:pre]); err != nil {
+			t.Fatalf("c02: source pre-write failed: %v", err)
+		}
+		tc, slow, err := c02lConnectSlowAck(node)
+		if err != nil {
+			t.Fatalf("c02: connect: %v", err)
+		}
+		if ok, err := tc.Login(tgt.ClientID, tgt.Secret, "tunnel"); !ok {
+			t.Fatalf("c02: target tunnel login failed: %v", err)
+		}
+		// raw capture of everything the server writes to the target from now on
+		var capMu sync.Mutex
+		var captured []byte
+		rDone := make(chan struct{})
+		go func() {
+			defer close(rDone)
+			buf := make([]byte, 32*1024)
+			for {
+				k, err := tc.hc.Read(buf)
+				if k > 0 {
+					capMu.Lock()
+					captured = append(captured, buf[:k]...)
+					capMu.Unlock()
+				}
+				if err != nil {
+					return
+				}
+			}
+		}()
+		slow.armed.Store(true)
+		b, _ := json.Marshal(&packet.TunnelOpenRequest{MappingID: mapping.ID, TunnelID: tid, SecretKey: mapping.SecretKey})
+		_ = tc.Send(&packet.TransferPacket{PacketType: packet.TunnelOpen, Payload: b})
+		if post > 0 {
+			if _, err := sc.hc.Write(data[pre:]); err != nil {
+				run.Count("prewrite_source_write_failed", 1)
+			}
+		}
+		// the source has sent everything and has nothing to receive: it closes
+		sc.hc.Close()
+		if !c02lAwaitLifecycleEnd() {
+			run.Count("watchdog", 1)
+			tc.hc.Close()
+			return undecided + 1
+		}
+		wd := time.NewTimer(15 * time.Second)
+		select {
+		case <-rDone:
+		case <-wd.C:
+			run.Count("harness_reader_stuck", 1)
+			undecided++
+			tc.hc.Close()
+			<-rDone
+		}
+		wd.Stop()
+		capMu.Lock()
+		got := append([]byte(nil), captured...)
+		capMu.Unlock()
+		head := got
+		if len(head) > 24 {
+			head = head[:24]
+		}
+		det := map[string]any{"case": cs, "tunnel_id": tid, "captured_len": len(got), "captured_head_hex": fmt.Sprintf("%x", head),
+			"payload_overtook_ack_write": slow.overtaken.Load(), "srv_tgt_conn_closed": tc.sc.IsClosed()}
+		// the target end speaks the tunnel-open protocol: one TunnelOpenAck packet, then the tunnel bytes
+		sp := stream.NewStreamProcessor(bytes.NewReader(got), io.Discard, context.Background())
+		pkt, used, perr := sp.ReadPacket()
+		sp.Close()
+		okAck := false
+		if perr == nil && pkt != nil && pkt.PacketType&0x3F == packet.TunnelOpenAck {
+			var a packet.TunnelOpenAckResponse
+			if json.Unmarshal(pkt.Payload, &a) == nil && a.Success && a.TunnelID == tid {
+				okAck = true
+			}
+		}
+		switch {
+		case len(got) == 0:
+			run.Count("prewrite_nothing_received", 1)
+			run.Observe("prewrite_nothing_last", det)
+		case !okAck:
+			det["parse_error"] = fmt.Sprint(perr)
+			det["what"] = "the first thing on the attaching end's connection is not a well-formed TunnelOpenAck: tunnel payload was forwarded before the ack was written"
+			run.Violation("C02:lifecycle|stream-corrupted-around-ack", det)
+		default:
+			rest := got[used:]
+			if len(rest) > len(data) || !bytes.Equal(rest, data[:len(rest)]) {
+				det["ack_len"] = used
+				det["what"] = "after the TunnelOpenAck the attaching end does not receive a prefix of the source's stream (ack bytes inside the stream / reordering)"
+				run.Violation("C02:lifecycle|stream-corrupted-around-ack", det)
+			} else if len(rest) == len(data) {
+				run.Count("prewrite_ack_then_exact_stream", 1)
+			} else {
+				run.Count("prewrite_ack_then_short_prefix", 1)
+				run.Observe("prewrite_short_last", det)
+			}
+		}
+		if slow.ackDelayed.Load() {
+			run.Count("prewrite_ack_write_held", 1)
+		}
+		tc.hc.Close()
+		sc.sc.Close()
+		tc.sc.Close()
+		run.Eval(1)
+		run.Distinct(fmt.Sprintf("prewrite|pre=%d|post=%d", pre, post))
+	}
+	return undecided
 }
